@@ -160,6 +160,20 @@ Theorem C16_periph_mode_table : forall c bs b j ps,
 Proof. exact periph_mode_table. Qed.
 Print Assumptions C16_periph_mode_table.
 
+(* the same by trace position, with the alternate-mode flag: cycle t of the observable trace (`run`) shows `out` of
+   the state before cycle t; pin j's triple there is the documented function of its mode and output bit in that
+   cycle, and its alt_mode bit is up iff the mode is ALTERNATE *)
+Theorem C16_run_nth : forall c bs t b, nth_error bs t = Some b ->
+  nth_error (run c (init c) bs) t = Some (out c (at_time c bs t) b).
+Proof. exact run_nth. Qed.
+Print Assumptions C16_run_nth.
+
+Theorem C16_periph_mode_table_at : forall c bs t b j ps, pin_at c bs t j = Some ps ->
+  nth_error (o_pins (out c (at_time c bs t) b)) j = Some (documented (ps_mode ps) (ps_out ps)) /\
+  (po_alt (documented (ps_mode ps) (ps_out ps)) = true <-> ps_mode ps = 3).
+Proof. exact periph_mode_table_at. Qed.
+Print Assumptions C16_periph_mode_table_at.
+
 Theorem C16_periph_pins_length : forall c bs b, length (o_pins (out c (state_after c (init c) bs) b)) = g_pins c.
 Proof. exact periph_pins_length. Qed.
 Print Assumptions C16_periph_pins_length.
